@@ -14,7 +14,7 @@
 (* Differences between these definitions and the code are reported by the  *)
 (* trace specification as DRIFT (no listed property is at stake).          *)
 (***************************************************************************)
-EXTENDS RankBase
+EXTENDS RankBase, BenchDefs
 
 \* ---------------------------------------------------------------- Consensus.topk_ranking
 \* number of elements in the first j buckets
